@@ -437,24 +437,15 @@ Proof.
     intros s Hs; vm_compute in Hs; intuition; subst; reflexivity.
 Qed.
 
-(** liquibase: the rollback statements are "--rollback: " comment lines of their own changeset;
-    a rollback of the file reads the changesets from the last to the first
-    ([liquibase_down], a line reader).  The full statement -- for every change list the rollback
-    lines read back as [flat_map ReverseStmts (rev changes)] -- is false of the template:      *)
-Theorem C17_downfile_liquibase_refuted :
-  exists (now : bytes) (changes : list mchange),
-    liquibase_down now changes <> flat_map ReverseStmts (List.rev changes).
-Proof.
-  (* DROP TABLE t with reverse "CREATE TABLE t (\n  c int\n)" (an indented plan) *)
-  exists [50%N], [MChange [68;82;79;80]%N [] (RStr [67;82;69;65;84;69;32;116;32;40;10;32;32;99;32;105;110;116;10;41]%N)].
-  vm_compute. discriminate.
-Qed.
-Print Assumptions C17_downfile_liquibase_refuted.
-
-(** What holds: when no reverse statement (and no comment, and not the timestamp) contains a
-    newline and no line of a [Cmd] starts with "--rollback: ", the rollback lines read back
-    exactly, changesets last to first. *)
-Theorem C17_downfile_liquibase_except :
+(** liquibase: the rollback statements are "--rollback: " comment lines of their own changeset, every
+    line of a statement carrying the prefix (template function [rollback], fix
+    C17-liquibase-multiline-rollback); a rollback of the file joins the contents of the comment
+    lines of each changeset, splits them at the ";" that end a line, and takes the changesets from
+    the last to the first ([liquibase_down]).  For every change list whose reverse statements are
+    [line_closed] (multi-line statements included), whose comments and timestamp hold no newline
+    and whose [Cmd]s have no line starting with "--rollback: ", the rollback reads back as
+    [flat_map ReverseStmts (rev changes)]. *)
+Theorem C17_downfile_liquibase :
   forall now changes, no_nl now = true -> (forall c, In c changes -> lq_change_ok c) ->
   liquibase_file now changes = s_lq_header ++ concat (lq_changeset_texts now 0 changes) /\
   liquibase_down now changes = flat_map ReverseStmts (List.rev changes).
@@ -463,7 +454,18 @@ Proof.
   - unfold liquibase_file. now rewrite liquibase_file_texts.
   - now apply liquibase_down_lemma.
 Qed.
-Print Assumptions C17_downfile_liquibase_except.
+Print Assumptions C17_downfile_liquibase.
+
+(** the input that refuted the statement before the fix: DROP TABLE t with the reverse
+    "CREATE TABLE t (\n  c int\n)" of an indented plan *)
+Example C17_downfile_liquibase_multiline :
+  let c := MChange [68;82;79;80]%N [] (RStr [67;82;69;65;84;69;32;116;32;40;10;32;32;99;32;105;110;116;10;41]%N) in
+  lq_change_ok c /\
+  liquibase_down [50%N] [c] = [[67;82;69;65;84;69;32;116;32;40;10;32;32;99;32;105;110;116;10;41]%N].
+Proof.
+  split; [|vm_compute; reflexivity].
+  split; [reflexivity|split; [reflexivity|]]. intros s Hs. vm_compute in Hs. intuition; subst; reflexivity.
+Qed.
 
 Example C17_downfile_liquibase_nonvacuous :
   (forall c, In c ex_changes -> lq_change_ok c) /\
@@ -490,30 +492,24 @@ Proof. exact alter_flag_lemma. Qed.
 Print Assumptions C17_alter_flag.
 
 (** ... and then the reverse ALTER holds the inverse of EVERY arm, last arm first (PostgreSQL: of the
-    arms as sorted, constraint drops first), provided no arm is a MySQL AddAttr / DropAttr. *)
-Theorem C17_alter_reverse_complete_except :
+    arms as sorted, constraint drops first).  MySQL's AddAttr / DropAttr arms, which have no reverse
+    clause, clear the flag (fix C17-mysql-table-attr-reverse; before it they left the flag alone and
+    the statement was false). *)
+Theorem C17_alter_reverse_complete :
   forall (arms r : list arm),
-  forallb not_attr arms = true ->
   (alterTable_mysql arms = Some r -> r = List.rev arms) /\
   (alterTable_postgres arms = Some r -> r = List.rev (pg_sorted arms)).
 Proof. exact alter_complete_lemma. Qed.
-Print Assumptions C17_alter_reverse_complete_except.
-
-(** Without the proviso it is false of the MySQL planner: the AddAttr / DropAttr arms write the
-    attribute, append nothing and leave the flag alone (known finding C17-mysql-table-attr-no-reverse). *)
-Theorem C17_alter_reverse_complete_refuted :
-  exists (arms r : list arm), alterTable_mysql arms = Some r /\ r <> List.rev arms.
-Proof.
-  exists [mkArm KAttr [116]%N; mkArm KOther [99]%N]. eexists. split; [vm_compute; reflexivity|]. discriminate.
-Qed.
-Print Assumptions C17_alter_reverse_complete_refuted.
+Print Assumptions C17_alter_reverse_complete.
 
 Example C17_alter_nonvacuous :
   (* unnamed CHECK first, named CHECK second: no reverse, in both orders *)
   alterTable_mysql [mkArm KCheckUnnamed [117]%N; mkArm KCheckNamed [107]%N] = None /\
   alterTable_mysql [mkArm KCheckNamed [107]%N; mkArm KCheckUnnamed [117]%N] = None /\
   alterTable_postgres [mkArm KOther [97]%N; mkArm KCheckNamed [107]%N; mkArm KDropConst [100]%N] =
-    Some [mkArm KCheckNamed [107]%N; mkArm KOther [97]%N; mkArm KDropConst [100]%N].
+    Some [mkArm KCheckNamed [107]%N; mkArm KOther [97]%N; mkArm KDropConst [100]%N] /\
+  (* an added table attribute next to a reversible arm: no reverse *)
+  alterTable_mysql [mkArm KAttr [116]%N; mkArm KOther [99]%N] = None.
 Proof. vm_compute. auto. Qed.
 
 (** ** 2b. The flag of the SQLite planner (sql/sqlite/migrate.go: PlanChanges)
